@@ -111,7 +111,37 @@ func runSolver(ctx context.Context, name string, script string, timeout int, see
 	return "unknown", out, secs
 }
 
+func decideLean(ob *Obligation, cfg *SolverCfg) *ObResult {
+	res := &ObResult{Ob: ob, Name: ob.Name, Kind: ob.Kind, Bytes: len(ob.Lean), Script: ob.Lean, Solver: "lean"}
+	dir, err := os.MkdirTemp("", "dvc-lean-")
+	if err != nil {
+		res.Verdict, res.Output = "undecided", err.Error()
+		return res
+	}
+	defer os.RemoveAll(dir)
+	f := filepath.Join(dir, "L.lean")
+	os.WriteFile(f, []byte(ob.Lean), 0o644)
+	ctx, cancel := context.WithTimeout(context.Background(), time.Duration(cfg.LongTimeout+60)*time.Second)
+	defer cancel()
+	cmd := exec.CommandContext(ctx, "lean", f)
+	var buf bytes.Buffer
+	cmd.Stdout, cmd.Stderr = &buf, &buf
+	t0 := time.Now()
+	err = cmd.Run()
+	res.Seconds = time.Since(t0).Seconds()
+	out := buf.String()
+	if err == nil && !strings.Contains(out, "error") && !strings.Contains(out, "sorry") {
+		res.Verdict = "proved"
+	} else {
+		res.Verdict, res.Output = "undecided", out
+	}
+	return res
+}
+
 func decide(ob *Obligation, script string, cfg *SolverCfg) *ObResult {
+	if ob.Lean != "" {
+		return decideLean(ob, cfg)
+	}
 	res := &ObResult{Ob: ob, Name: ob.Name, Kind: ob.Kind, Bytes: len(script), Script: script}
 	h := sha256.Sum256([]byte(script))
 	key := hex.EncodeToString(h[:16])
